@@ -93,6 +93,7 @@ func (m *MergeSelf) createIterators(files []TSSPFile) *ChunkIterators {
 		stopCompMerge: m.signal,
 		itrs:          make([]*ChunkIterator, 0, len(files)),
 		merged:        &record.Record{},
+		orderBySeq:    true,
 	}
 	itrs.WithLog(m.lg)
 
